@@ -78,7 +78,8 @@ def strat_case(draw, tier):
     md = draw(st.integers(0, max(0, eff - 1)))
     return {"layout": lay, "start": start, "nsamps": nsamps, "gulp": gulp, "fch1": fch1, "foff": foff,
             "md_target": md, "ichan": draw(st.integers(0, lay["nchans"] - 1)), "np_ints": draw(st.sampled_from([False, False, False, True])),
-            "omit_defaults": draw(st.sampled_from([False, False, True])), "precursor": draw(st.sampled_from([False, False, True]))}
+            "omit_defaults": draw(st.sampled_from([False, False, True])), "precursor": draw(st.sampled_from([False, False, True])),
+            "np_alloc": draw(st.sampled_from([False, False, False, True]))}
 
 
 def f32eq(a, b):
@@ -135,7 +136,7 @@ def check(case, ctx):
     X = D[start : start + eff].astype(np.float64)
     Xf32 = D[start : start + eff].astype(np.float32)
     kw = vs.as_np_ints({"gulp": gulp, "start": start, "nsamps": nsamps, "quiet": True, "description": "v"}, case.get("np_ints"))
-    kw = vs.omit_defaults(kw, case.get("omit_defaults"), eff)
+    kw = vs.with_allocator(vs.omit_defaults(kw, case.get("omit_defaults"), eff), case.get("np_alloc"))
     big = {"gulp": eff + 5, "start": start, "nsamps": nsamps, "quiet": True, "description": "v"}
     labels = [f"{lay['nbits']}bit", f"files{len(lay['split'])}"] + (["numpy_int_arguments"] if case.get("np_ints") else [])
     multi = gulp < eff
